@@ -1,10 +1,25 @@
-"""C18 Liveness (and, planned, assertion-crawler) facts over-approximate real dependences.
-Liveness: self-composition (spec/NonInterf.tla) from the end of every block for every variable reported dead there."""
+"""C18 Liveness and assertion-crawler facts over-approximate real dependences.
+Liveness: self-composition (spec/NonInterf.tla) from the end of every block for every variable reported dead there.
+Assertion crawler: self-composition (spec/Crawler.tla) from the ENTRY of every block b (assertion_crawler::get_results(b)
+is the IN fact of the backward analysis) for every listed assertion a and every variable NOT listed for (b, a); plus
+single-copy reachability: every assertion at which an execution from the entry of b stands must be listed for b."""
 import json, os, re, collections
 import vlib, proggen
 from vlib import Check, build, tlc, workdir
 
 BOX, UNIV, MAXSTEPS = 1, 400, 24
+CMAXSTEPS = 30   # crawler half: the two copies run one after the other between a branch and its re-join block
+
+CRAWL_WHAT = {
+    "DataFlow": "both copies took the same branches, yet the value of the assertion's condition differs: the variable flows "
+                "into the condition (data dependence) but is not listed",
+    "ControlDep": "the outcome of a branch differs between the copies and one copy executes the assertion before the re-join "
+                  "block of the branch: whether the assertion is executed depends on the variable (control dependence), "
+                  "but it is not listed",
+    "ImplicitFlow": "the copies took different branches, re-joined, and the value of the assertion's condition differs: the "
+                    "variable decides through the branch taken which definitions reach the condition, but it is not listed",
+    "ReachedListed": "an execution from the entry of the block stands at an assertion that is not listed for the block",
+}
 
 
 def gen(ck, n):
@@ -22,14 +37,24 @@ def gen(ck, n):
     return ps
 
 
-def explore(ck, label, ps):
+def observe(label, ps):
+    """run the real analyses (harness/dataflow_runner) on the programs; returns the work dir and both kinds of records"""
     wd = workdir("c18-" + label)
-    pp, op_, tp = [os.path.join(wd, x) for x in ("p.ndjson", "o.ndjson", "progs.ndjson")]
+    pp, op_ = os.path.join(wd, "p.ndjson"), os.path.join(wd, "o.ndjson")
     vlib.write_ndjson(pp, ps)
     rc, out = vlib.sh([os.path.join(vlib.BUILD, "bin", "dataflow_runner"), pp, op_], timeout=1800)
     if rc != 0:
         raise vlib.Broken("dataflow_runner failed: " + out[-2000:])
-    res = {r["id"]: r for r in vlib.read_ndjson(op_)}
+    recs = vlib.read_ndjson(op_)
+    live = {r["id"]: r for r in recs if r.get("k") != "crawl"}
+    crawl = {r["id"]: r for r in recs if r.get("k") == "crawl"}
+    return wd, live, crawl
+
+
+def explore(ck, label, ps, obs=None):
+    """liveness half"""
+    wd, res, _ = obs or observe(label, ps)
+    tp = os.path.join(wd, "progs.ndjson")
     merged = []
     for p in ps:
         r = res.get(p["id"], {"err": 1})
@@ -64,12 +89,83 @@ def explore(ck, label, ps):
     return v, merged
 
 
+# ---------------------------------------------------------------------------------------------- assertion crawler
+STATE_RE = re.compile(r"/\\ blk2 = (\d+)\n/\\ blk1 = (\d+)\n/\\ from_block = (\d+)\n/\\ rejoin = (\d+)\n/\\ md = \"(\w)\"\n/\\ variable = (\d+)\n"
+                      r"/\\ idx2 = (\d+)\n/\\ idx1 = (\d+)\n/\\ assertion = (\d+)\n/\\ prog = (\d+)\n/\\ diverged = (\d+)\n"
+                      r"/\\ state2 = (.*?)\n/\\ state1 = (.*?)\n")
+
+
+def crawl_records(ps, crawl):
+    merged = []
+    for p in ps:
+        r = crawl.get(p["id"], {"err": 1})
+        q = {k: p[k] for k in ("id", "nv", "entry", "exit", "blocks")}
+        if "err" in r:   # CRAB_ERROR / crash of the analysis: no claim
+            q.update({"err": 1, "ctop": [1 for _ in p["blocks"]], "crawl": [[] for _ in p["blocks"]]})
+        else:
+            q.update({"err": 0, "ctop": r["ctop"], "crawl": r["crawl"]})
+        merged.append(q)
+    return merged
+
+
+def parse_states(out):
+    """the states of the last error trace printed by TLC (ALIAS Compact; TLC prints record fields in its own order)"""
+    sts = []
+    for blk in re.split(r"\nState \d+: ", out)[1:]:
+        d = {}
+        for k, val in re.findall(r"/\\ (\w+) = (.*)", blk):
+            d[k] = val.strip()
+        if "prog" in d:
+            sts.append(d)
+    return sts
+
+
+def explore_crawl(ck, label, ps, obs=None, count=True):
+    wd, _, crawl = obs or observe(label, ps)
+    tp = os.path.join(wd, "cprogs.ndjson")
+    merged = crawl_records(ps, crawl)
+    vlib.write_ndjson(tp, merged)
+    ok = [q for q in merged if q["err"] == 0]
+    if count:
+        c = ck.cov
+        c["crawler_programs"] = c.get("crawler_programs", 0) + len(ok)
+        c["crawler_no_claim_crash"] = c.get("crawler_no_claim_crash", 0) + len(merged) - len(ok)
+        c["crawler_block_facts"] = c.get("crawler_block_facts", 0) + sum(len(f) for q in ok for f in q["crawl"])
+        c["crawler_listed_variables"] = c.get("crawler_listed_variables", 0) + sum(len(x["vs"]) for q in ok for f in q["crawl"] for x in f)
+        c["crawler_unlisted_pairs_refutation_attempted"] = c.get("crawler_unlisted_pairs_refutation_attempted", 0) + \
+            sum(q["nv"] - len(x["vs"]) for q in ok for f, t in zip(q["crawl"], q["ctop"]) if not t for x in f)
+        c["crawler_top_blocks"] = c.get("crawler_top_blocks", 0) + sum(sum(q["ctop"]) for q in ok)
+        c["crawler_programs_with_assertions"] = c.get("crawler_programs_with_assertions", 0) + \
+            sum(1 for q in ok if any(s["op"] == "assert" for b in q["blocks"] for s in b["stmts"]))
+        c["crawler_programs_with_facts"] = c.get("crawler_programs_with_facts", 0) + sum(1 for q in ok if any(q["crawl"]))
+    r = tlc("Crawler", "Crawler", "c18c-" + label, env={"PROGRAMS": tp, "BOX": BOX, "UNIV": UNIV, "MAXSTEPS": CMAXSTEPS}, timeout=2400)
+    if count:
+        ck.add_tlc(r, "Crawler/" + label)
+    v = None
+    if r.is_violation:
+        sts = parse_states(r.out)
+        if not sts:
+            raise vlib.Broken("cannot parse crawler violation:\n" + r.out[-2000:])
+        last = sts[-1]
+        kind = sorted(set(r.violated))
+        v = {"prog": int(last["prog"]), "from_entry_of_block": int(last["from_block"]), "assertion": int(last["assertion"]),
+             "variable": int(last["variable"]), "violated": kind, "mode": last["md"].strip('"'), "diverged": int(last["diverged"]),
+             "execution": [{k: s[k] for k in ("md", "blk1", "idx1", "state1", "blk2", "idx2", "state2", "rejoin")} for s in sts]}
+    return v, merged, r
+
+
+def reached_assertions(ck, merged):
+    """coverage only: how many (block, assertion) facts are listed (= upper bound of what executions reach)"""
+    return sum(len(f) for q in merged if q["err"] == 0 for f in q["crawl"])
+
+
 def run(tier, seed):
     ck = Check("C18", tier, seed + 8000)
     build("dataflow_runner")
     n = 300 if tier == "quick" else 5000
     done = k = 0
-    while done < n and len(ck.violations) < 5:
+    kinds = collections.Counter()
+    while done < n and len(ck.violations) < 10:
         m = min(500, n - done)
         ps = gen(ck, m)
         for p in ps:
@@ -77,9 +173,11 @@ def run(tier, seed):
         if k == 0:   # fixed regression cases (replays of earlier findings)
             rd = os.path.join(vlib.ROOT, "tools", "regress")
             ps += [json.load(open(os.path.join(rd, f))) for f in sorted(os.listdir(rd)) if f.startswith("c18_")]
+        obs = observe("b%d" % k, ps)
+        # ---- liveness half
         remaining = ps
         for attempt in range(5):
-            v, merged = explore(ck, "b%d_%d" % (k, attempt), remaining)
+            v, merged = explore(ck, "b%d_%d" % (k, attempt), remaining, obs if attempt == 0 else None)
             if k == 0 and attempt == 0:
                 q = next((x for x in merged if any(x["dead"])), merged[0])
                 ck.sample({"blocks": q["blocks"], "outs": q["outs"], "dead_at_block_end": q["dead"], "live_at_block_end": q["live"]})
@@ -90,12 +188,45 @@ def run(tier, seed):
                          "block b%d idx %d with states %s / %s" % (v["variable"], v["dead_at_end_of_block"], v["violated"], v["block"],
                                                                   v["idx"], v["state1"], v["state2"]), {"program": prog, "violation": v})
             remaining = [p for p in remaining if p["id"] != v["prog"]]
+        # ---- assertion-crawler half
+        remaining = ps
+        for attempt in range(6):
+            v, cmerged, _ = explore_crawl(ck, "b%d_%d" % (k, attempt), remaining, obs if attempt == 0 else None, count=(attempt == 0))
+            if k == 0 and attempt == 0:
+                q = next((x for x in cmerged if any(any(len(f["vs"]) > 0 for f in fs) for fs in x["crawl"])), cmerged[0])
+                ck.sample({"blocks": q["blocks"], "crawler_facts_at_block_entry": q["crawl"]})
+            if v is None:
+                break
+            prog = next(p for p in remaining if p["id"] == v["prog"])
+            # confirm by re-running the single failing program
+            v1, _, _ = explore_crawl(ck, "b%d_confirm" % k, [prog], None, count=False)
+            if v1 is None:
+                raise vlib.Broken("crawler violation on program %d not reproduced in isolation" % v["prog"])
+            kinds[v1["violated"][0]] += 1
+            facts = next(q for q in cmerged if q["id"] == prog["id"])["crawl"]
+            ck.violation("C18: assertion crawler, program %d, facts at the entry of block b%d, assertion id %d, variable %d: %s [%s]; last "
+                         "states %s / %s at b%s idx %s" % (v1["prog"], v1["from_entry_of_block"], v1["assertion"], v1["variable"],
+                                                          CRAWL_WHAT[v1["violated"][0]], ",".join(v1["violated"]),
+                                                          v1["execution"][-1]["state1"], v1["execution"][-1]["state2"],
+                                                          v1["execution"][-1]["blk1"], v1["execution"][-1]["idx1"]),
+                         {"half": "crawler", "program": prog, "crawler_facts_at_block_entry": facts, "violation": v1})
+            remaining = [p for p in remaining if p["id"] != v["prog"]]
         done += m
         k += 1
+    ck.cov["crawler_violation_kinds"] = dict(kinds)
     ck.cov["rule"] = ("seeded CFGs with assertions, `unreachable` statements in the middle of blocks and a function declaration with 0-2 "
-                      "outputs; for EVERY block and EVERY variable reported dead at its end, every pair of box states differing only in "
-                      "that variable is run in lock-step for up to %d steps. non-trivial = programs with at least one dead fact" % MAXSTEPS)
-    ck.assumptions += ["the assertion-crawler half of C18 is not covered yet", "statement alphabet without division (constant-magnitude changes)"]
+                      "outputs. Liveness: for EVERY block and EVERY variable reported dead at its end, every pair of box states differing "
+                      "only in that variable is run in lock-step for up to %d steps; non-trivial = programs with at least one dead fact "
+                      "(distinct_nontrivial). Crawler: for EVERY block b, every assertion a listed at the entry of b and EVERY variable not "
+                      "listed for (b, a), every pair of box states differing only in that variable is run (lock-step, separate runs between "
+                      "a branch whose outcome differs and its re-join block, lock-step again) for up to %d steps; plus every single "
+                      "execution from the entry of every block (reached assertions must be listed); crawler_* counters are measured from "
+                      "the exported facts" % (MAXSTEPS, CMAXSTEPS))
+    ck.assumptions += ["statement alphabet without division (constant-magnitude changes)",
+                       "crawler: intra-procedural use (no call sites, empty summary table), integer variables only",
+                       "crawler: termination-insensitive contract: a copy that fails an assume/assert that is not a branch guard "
+                       "stops and nothing more is claimed for that pair; branches whose block cannot reach the exit: no claim",
+                       "values -%d..%d at the start and for havoc" % (BOX, BOX)]
     return ck.finish()
 
 
@@ -103,6 +234,11 @@ def replay(path):
     case = json.load(open(path))["case"]
     ck = Check("C18", "quick", 0)
     build("dataflow_runner")
+    if case.get("half") == "crawler":
+        v, _, _ = explore_crawl(ck, "replay", [case["program"]])
+        if v:
+            ck.violation("replayed: %s" % v["violated"], case)
+        return ck.finish()
     v, _ = explore(ck, "replay", [case["program"]])
     if v:
         ck.violation("replayed: %s" % v["violated"], case)
